@@ -34,7 +34,7 @@ ASSUMPTIONS = ['continuation canonicaliser validated differentially on every 16t
 
 
 def BOUNDS(tier):
-    return {'transactions': 2, 'rcpts': 2, 'bodies': 10, 'size_limit': SIZE_LIMIT,
+    return {'transactions': 2, 'rcpts': 2, 'bodies': 11, 'size_limit': SIZE_LIMIT,
             'segmentations': 'all for single-transaction streams + burst/byte/line/1-cut for the rest' if tier == 'quick' else 'all'}
 
 
@@ -48,6 +48,7 @@ BODIES = {
     'blank-first': b'\r\n\r\nx\r\n \r\n.\r\n',
     'at-limit': b'C' * 28 + b'\r\n.\r\n',
     'limit+1': b'D' * 29 + b'\r\n.\r\n',
+    'bare-cr': b'seen\r.\r\na\rb\r\n.\r\n',          # carriage returns inside a line, one directly before a dot
     'big-dot': b'A' * 20 + b'\r\n' + b'B' * 18 + b'.\r\nMAIL FROM:<evil@x>\r\n.end\r\n.\r\n',
 }
 
